@@ -1,4 +1,5 @@
 import Ledger.Driver.Core
+import Ledger.Driver.Repl
 
 /-! `ldriver_repl`: correspondence driver for the Repl area (core-only). -/
-def main : IO Unit := Ledger.Driver.runDriver []
+def main : IO Unit := Ledger.Driver.runDriver Ledger.Driver.Repl.handlers
